@@ -21,8 +21,8 @@ RULE = (
     "swallow, re-raise, raise new, raise new from None, raise same type, return, yield again, raise "
     "StopAsyncIteration / StopIteration, raise its own RuntimeError (plain, or 'from' the caught one), raise an "
     "equal copy} x afterwards {stop, yield again, raise, raise Stop(Async)Iteration, raise RuntimeError} with "
-    "0..2 suspensions per segment, and enumerates all 13 block outcomes {normal, Exception, BaseException, "
-    "StopIteration, StopAsyncIteration, RuntimeError, GeneratorExit, KeyboardInterrupt, SystemExit, an exception with "
+    "0..2 suspensions per segment, and enumerates all 14 block outcomes {normal, Exception, BaseException, "
+    "StopIteration, StopAsyncIteration, RuntimeError, GeneratorExit, KeyboardInterrupt, SystemExit, asyncio.CancelledError, an exception with "
     "value equality, an exception object that tests false}; the generator function may be a functools.partial or a method used through an instance, the statement may run inside "
     "the handler of an unrelated exception; user-defined subclasses of StopIteration / StopAsyncIteration are outcomes too; one pair of executions (asyncstdlib / contextlib) per "
     "outcome. Oracle: same bound value, same generator event log (resumed or thrown into exactly once), same "
@@ -47,7 +47,7 @@ HANDLERS = ("none", "finally", "swallow", "reraise", "raise_new", "raise_new_fro
 POST = ("stop", "yield_again", "raise", "raise_stopasync", "raise_stopiter", "raise_runtime")
 OUTCOMES = ("normal", "Exception", "BaseException", "StopIteration", "StopAsyncIteration", "RuntimeError",
             "GeneratorExit", "KeyboardInterrupt", "EqualException", "FalsyException", "SystemExit",
-            "StopIterationSubclass", "StopAsyncIterationSubclass")
+            "StopIterationSubclass", "StopAsyncIterationSubclass", "CancelledError")
 
 
 class GenError(Exception):
@@ -233,6 +233,10 @@ def make_exc(outcome):
         return EndOfStream("block")
     if outcome == "StopAsyncIterationSubclass":
         return EndOfAsyncStream("block")
+    if outcome == "CancelledError":
+        # what a cancelled asyncio task finds in its block (here merely an exception class: no asyncio loop runs)
+        import asyncio
+        return asyncio.CancelledError("block")
     return KeyboardInterrupt("block")
 
 
@@ -252,6 +256,7 @@ async def use(factory, prep, sim, log, injected, res):
             raise
         log.append(("statement_left",))
         res.append(("raised", type(err).__name__, err is injected[0], getattr(err, "marker", None)))
+        res.append(("message (never compared)", str(err)[:120]))
 
 
 def one_side(prep, outcome, st, decorator, interrupts):
